@@ -80,6 +80,15 @@ def _search(quick=True, seed=0, only=None):
                     m.filter(Signal(content=text))
                 except Exception as e:
                     return n, f"Membrane.filter raised {type(e).__name__} on hostile input {text[:20]!r} (len {len(text)})"
+    # custom signatures given to the constructor are scanned
+    for k in ((1, 2) if only != "innate" else ()):
+        n += 1
+        with contextlib.redirect_stdout(io.StringIO()):
+            custom = [ThreatSignature(f"wombat{i}", ThreatLevel.CRITICAL, "custom") for i in range(k)]
+            m = Membrane(signatures=custom, silent=True)
+            rs = [m.filter(Signal(content=f"a WOMBAT{i} b")) for i in range(k)]
+        if any(r.allowed for r in rs):
+            return n, f"Membrane(signatures=[{k} custom CRITICAL substring signatures]) allowed an input containing one of them"
     # learned / imported signatures are scanned; forgetting keeps memory
     for is_regex in ((False, True) if only != "innate" else ()):
         n += 1
@@ -135,6 +144,19 @@ def _search(quick=True, seed=0, only=None):
                 return n, f"{type(v).__name__}.validate raised {type(e).__name__} on {text[:20]!r} (len {len(text)})"
             if not ok and not err:
                 return n, f"{type(v).__name__} rejected without a reason"
+    # what the shipped JSON validator is configured to reject, it rejects -- and the innate filter then does not allow the input
+    for (jv, text, why) in ((inn.JSONValidator(max_size=10), '{"a": "' + "x" * 20 + '"}', "content longer than max_size"),
+                            (inn.JSONValidator(), "[1, 2", "unparseable JSON"), (inn.JSONValidator(), "{'a': 1}", "unparseable JSON"),
+                            (inn.JSONValidator(max_depth=2), "[[[[1]]]]", "nesting deeper than max_depth"),
+                            (inn.JSONValidator(max_depth=3), '{"a": {"b": {"c": {"d": 1}}}}', "nesting deeper than max_depth")):
+        n += 1
+        ok, err = jv.validate(text)
+        if ok:
+            return n, f"JSONValidator(max_depth={jv.max_depth}, max_size={jv.max_size}).validate({text!r}) accepted {why}"
+        with contextlib.redirect_stdout(io.StringIO()):
+            r = inn.InnateImmunity(validators=[jv], silent=True).check(text)
+        if r.allowed:
+            return n, f"InnateImmunity allowed {text!r} although its JSON validator rejects it ({why})"
     with contextlib.redirect_stdout(io.StringIO()):
         ii = inn.InnateImmunity(validators=validators, silent=True)
     for p in ii.patterns:
@@ -168,7 +190,7 @@ def _search(quick=True, seed=0, only=None):
 if __name__ == "__main__":
     n, bad = search(quick="--thorough" not in sys.argv, seed=int(os.environ.get("VERIF_SEED", "0") or 0))
     out = {"status": "ok" if bad is None else "violation", "bound": "every shipped signature x 5 paddings x 4 case variants x 3 thresholds; 11 hostile inputs; "
-           "learn/forget/import histories; rate limits 1..3 over 12 steps; 3 validators", "cases": n}
+           "learn/forget/import histories; rate limits 1..3 over 12 steps; 3 validators; 5 JSON rejections; constructor-installed custom signatures", "cases": n}
     if bad:
         out["detail"] = bad
         os.makedirs("replays", exist_ok=True)
